@@ -188,6 +188,22 @@ def _is_logical(e):
     return False
 
 
+def _forced_leaves(e, truth):
+    """[(operand, its truth)] forced by the whole expression having the given truth: all conjuncts of a true
+    conjunction, all disjuncts of a false disjunction (through `!` and parentheses)."""
+    while isinstance(e, dict) and e.get('k') in ('paren', 'cast') and isinstance(e.get('e'), dict):
+        e = e['e']
+    if not isinstance(e, dict):
+        return []
+    if e.get('k') == 'un' and e.get('op') == '!':
+        return _forced_leaves(e['e'], not truth)
+    if e.get('k') == 'bin' and e.get('op') == '&&':
+        return _forced_leaves(e['l'], True) + _forced_leaves(e['r'], True) if truth else []
+    if e.get('k') == 'bin' and e.get('op') == '||':
+        return _forced_leaves(e['l'], False) + _forced_leaves(e['r'], False) if not truth else []
+    return [(e, truth)]
+
+
 def _eval_logical(e, env):
     """Truth (0/1) of a short-circuit expression whose operands were just evaluated on this path: the outcome of
     every operand branch is in env as ('lc', spelling).  None when an operand that matters is unknown."""
@@ -743,6 +759,16 @@ class Explorer:
                     env2 = self._refine(atom, edge_sense, env)
                     if env2 is None:
                         continue
+                    if not shortcut and _is_logical(term['cond']):
+                        # a compound condition tested as a whole (it was kept in a local first): on the edge where a
+                        # conjunction held every conjunct held, where a disjunction failed every disjunct failed
+                        for leaf, lsense in _forced_leaves(term['cond'], idx == 0):
+                            a2, s2 = norm_cond(leaf)
+                            env2 = self._refine(a2, s2 == lsense, env2)
+                            if env2 is None:
+                                break
+                        if env2 is None:
+                            continue
                     if shortcut:
                         env2 = dict(env2)
                         env2[('lc', estr(term['cond']))] = (idx == 0)
